@@ -176,6 +176,12 @@ CURATED = [
 ]
 
 
+# literals around CPython's 4300-digit limit for int <-> text conversion
+LONG_LITERALS = ["9" * 4301 + "x + 1", "2 * " + "7" * 4400, "4x^" + "1" * 4305, "x + " + "12" * 600, "8" * 1000 + " - 1"]
+# exactly at the limit (read correctly by the pinned code); the reference grammar needs ~90 s per such text, so thorough tier only
+LONG_LITERALS_AT_LIMIT = ["1" + "0" * 4299, "x + " + "12" * 2150]
+
+
 def chains(ctx):
     out = []
     for n in ([50, 120] if ctx.quick else [50, 120, 200, 300]):
@@ -240,7 +246,7 @@ def domain(ctx, res):
             if any(t in m for t in s):
                 texts.append(render(substitute(s, m), 1))
     n2 = len(texts)
-    texts += CURATED + chains(ctx) + soups(ctx, sentences)
+    texts += CURATED + LONG_LITERALS + ([] if ctx.quick else LONG_LITERALS_AT_LIMIT) + chains(ctx) + soups(ctx, sentences)
     seen = set()
     uniq = []
     for t in texts:
@@ -312,5 +318,9 @@ def run_family(ctx, cases, prop, clauses_of_interest):
     for eid, cl in sorted(bad.items()):
         text = texts[eid - 1]
         sig = "%s|%s|%s" % (prop, ",".join(cl), minimal_window(text, patterns))
-        res.violations.append(Violation(sig, "parse(%r) -> %s fails %s" % (text, events[eid - 1]["outcome"], cl), {"text": text}, cl))
+        if re.search(r"(?<![\d.])\d{4301,}(?![\d.])", text):
+            # (CPython's limit for int <-> text conversion: one root cause whatever surrounds the literal)
+            sig = "%s|%s|integer literal longer than 4300 digits" % (prop, ",".join(cl))
+        shown = text if len(text) <= 200 else "%s...(%d characters)...%s" % (text[:60], len(text), text[-40:])
+        res.violations.append(Violation(sig, "parse(%r) -> %s fails %s" % (shown, events[eid - 1]["outcome"], cl), {"text": text}, cl))
     return res
